@@ -3,7 +3,6 @@ package c12
 import (
 	"fmt"
 	"math/rand"
-	"os"
 )
 
 const (
@@ -11,10 +10,6 @@ const (
 	nPair   = 10 * 10 * 4   // break-after × break-before × nesting variant
 	nTables = nOW + nPair
 )
-
-// includeKnown (development only, VERIF_C12_KNOWN=1) keeps the feature combinations of the genuine
-// defects of findings/C12 in the workload, to validate a repair of them.
-var includeKnown = os.Getenv("VERIF_C12_KNOWN") == "1"
 
 var breakVals = []string{"", "avoid", "avoid-page", "avoid-column", "column", "page", "left", "right", "recto", "verso"}
 
@@ -72,14 +67,6 @@ func genPair(j int) In {
 	case 3: // values on the inner boxes, both nested
 		u1.BA, u2.BB = ba, bb
 		in.Items = []Item{{Kind: "box", ID: "u4", Kids: []Item{u0, u1}}, {Kind: "box", ID: "u5", Kids: []Item{u2, u3}}}
-	}
-	// blockLevelPageBreak combines the values met at a break point with a table in which a
-	// column value seen first hides a later avoid / page value: genuine defects (findings/C12)
-	if ba == "avoid-column" && isAvoidValue(bb) && !includeKnown {
-		in.Skip = "avoid-column-hides-avoid"
-	}
-	if ba == "column" && bb == "page" && !includeKnown {
-		in.Skip = "column-hides-page"
 	}
 	in.buildDoc(noLegacy)
 	return in
@@ -320,66 +307,6 @@ func genRandom(r *rand.Rand) In {
 	if first.Kind == "box" && isSideValue(first.Kids[0].BB) {
 		first.Kids[0].BB = "page"
 	}
-	sanitize(r, &in)
 	in.buildDoc(func() bool { return chance(r, p.legacy) })
 	return in
-}
-
-// sanitize removes the feature combinations that trigger the genuine defects recorded in
-// findings/C12 (see notes/C12.md), so that the random workload is silent on the unchanged tree:
-//   - a block with a page name followed by a block without one (the change back to the unnamed
-//     page type forces no break): once a name is used every later block is named;
-//   - avoid-column / column meeting an avoid or forced value at the same break point (the
-//     combination in blockLevelPageBreak loses the avoid / page value): the column values are
-//     removed there (they stay where every other value at the break point is auto).
-func sanitize(r *rand.Rand, in *In) {
-	if includeKnown {
-		return
-	}
-	fl := buildFlow(in)
-	named := ""
-	for i := range fl.blocks {
-		b := &fl.blocks[i]
-		if b.name != "" {
-			named = b.name
-			continue
-		}
-		if named != "" {
-			if chance(r, 0.5) {
-				b.it.Page = named
-			} else {
-				b.it.Page = pick(r, []string{"a", "b"})
-			}
-			named = b.it.Page
-		}
-	}
-	for a := 0; a+1 < len(fl.blocks); a++ {
-		x, y := &fl.blocks[a], &fl.blocks[a+1]
-		var holders []*string
-		if x.parent != nil && x.parent == y.parent {
-			holders = []*string{&x.it.BA, &y.it.BB}
-		} else {
-			holders = append(holders, &x.it.BA)
-			if x.parent != nil {
-				holders = append(holders, &x.parent.BA)
-			}
-			if y.parent != nil {
-				holders = append(holders, &y.parent.BB)
-			}
-			holders = append(holders, &y.it.BB)
-		}
-		other := false
-		for _, h := range holders {
-			if *h != "" && *h != "avoid-column" && *h != "column" {
-				other = true
-			}
-		}
-		if other {
-			for _, h := range holders {
-				if *h == "avoid-column" || *h == "column" {
-					*h = ""
-				}
-			}
-		}
-	}
 }
